@@ -268,3 +268,24 @@ void _ZN5QXmpp7Private16parseHostAddressERK7QString(char *ret, char *addr) { uin
 void vp_c02_fixed_text(char *out, uint32_t len) { uint16_t c0 = vp_u16(), c1 = vp_u16(), c2 = vp_u16(); ASSERT(len >= 1 && len <= 3, "C02 env: fixed text length"); QAD *d = qs_new(len, 3); struct qs *q = (struct qs*)d; REF(d) = (uint32_t)-1;
   q->data[0] = c0; q->data[1] = c1; q->data[2] = c2; q->exact = 1; q->sid = SID_PACK(q->data, len); *(QAD**)out = d; }
 void vp_c02_force_attr(char *el, char *name, char *val) { struct dnode *n = DN(el); int s = vpl_attr_slot(*(QAD**)name, 1); if (!n->has[s]) n->nattr++; n->has[s] = 1; n->av[s] = *(QAD**)val; }
+void vp_c02_force_text(char *el, char *text) { DN(el)->text = *(QAD**)text; }
+/* ---- more Qt string/byte helpers (contract models) ---- */
+/* QByteArray::toHex / fromHex: abstract injective tagging like base64 in models/qt_core.c (the hex digit arithmetic is Qt's): toHex(raw) is a placeholder carrying
+   `raw`, fromHex of it gives `raw` back, fromHex of any other text gives arbitrary <= 3 bytes (Qt skips non-hex characters, it never fails) */
+void _ZNK10QByteArray5toHexEv(char *ret, char *self) { _ZNK10QByteArray8toBase64E6QFlagsINS_12Base64OptionEE(ret, self, 0); }
+void _ZN10QByteArray7fromHexERKS_(char *ret, char *enc) { uint8_t ok; *(QAD**)ret = b64_decode(*(QAD**)enc, &ok); }
+void _ZN7QString23toLatin1_helper_inplaceERS_(char *ret, char *self) { _ZN7QString15toLatin1_helperERKS_(ret, self); }
+/* QString::toLower(): a string without 'A'..'Z' and without non-ASCII units is returned as it is (same block, keeps its content id); otherwise a fresh block with
+   the ASCII letters lowered (non-ASCII case mapping is Qt's: left unchanged, which is what the comparisons with ASCII literals of the parsers can observe) */
+static int vpl_c02_has_upper(QAD *d) { for (uint32_t i = 0; i < QHINT16(d); i++) { if (i >= d->f1) break; uint16_t c = QCH16(d)[i]; if (c >= 'A' && c <= 'Z') return 1; } return 0; }
+static QAD *c02_lower(QAD *d) { if (d->f1 == 0) return d; if (d->f3 == QS_OFF && (((struct qs*)d)->isnum || ((struct qs*)d)->b64)) return d; if (!vpl_c02_has_upper(d)) return d;
+  uint32_t h = QHINT16(d); QAD *r = qs_new(d->f1, h); struct qs *q = (struct qs*)r; REF(r) = (uint32_t)-1;
+  for (uint32_t i = 0; i < h; i++) { if (i >= d->f1) break; uint16_t c = QCH16(d)[i]; q->data[i] = (c >= 'A' && c <= 'Z') ? (uint16_t)(c + 32) : c; }
+  q->lit = 0; q->exact = d->f1 <= 3; q->sid = SID_PACK(q->data, d->f1 <= 3 ? d->f1 : 3); return r; }
+void _ZN7QString14toLower_helperERS_(char *ret, char *self) { *(QAD**)ret = c02_lower(*(QAD**)self); }
+void _ZN7QString14toLower_helperERKS_(char *ret, char *self) { *(QAD**)ret = c02_lower(*(QAD**)self); }
+/* QString::split(QChar, behaviour, cs): cut - the result is the EMPTY list. Only QXmppPresence reads it (XEP-0115 legacy `ext`, never serialized again). */
+#ifdef HAVE_G__ZN9QListData11shared_nullE
+void _ZNK7QString5splitE5QChar6QFlagsIN2Qt18SplitBehaviorFlagsEENS2_15CaseSensitivityE(char *ret, char *self, uint16_t sep, uint32_t beh, uint32_t cs) { *(char**)ret = (char*)&G__ZN9QListData11shared_nullE; }
+#endif
+void _Z9qBadAllocv(void) { ASSERT(0, "qBadAlloc (allocation failure is out of scope)"); ASSUME(0); }
